@@ -149,6 +149,8 @@ def run(ctx, chk):
                 chk.ob("C05.position", "path %d: read advanced by a FINISHED result only" % k, ok, e.ins.loc(), fn=f.name,
                        key="readadv:%d:%d" % (k, e.ins.line), detail="" if ok else "read := %s under status %s" % (DR.fmt_term(v), cur_status))
     for c in want:
+        if c == "exhausted":
+            continue   # the explicit remainder test is optional: an empty remainder yields NEDATA from the decoder itself
         chk.ob("C05.codes", "cause '%s' has a path" % c, c in seen_causes, where, fn=f.name, key="has:" + c, nontrivial=False)
 
     # reserved bytes
